@@ -479,6 +479,9 @@ func (c *Channel) onRekey() {
 			id, s := c.newInit(now)
 			c.proposeNewSession(id, s)
 			c.handshakeTimer.Reset(0)
+		} else if !c.handshakeTimer.IsPending() {
+			// a prospective session was created from the peer's InitHello in the meantime: drive it.
+			c.handshakeTimer.Reset(c.params.HandshakeBackoff)
 		}
 		return nil, nil
 	})
